@@ -114,14 +114,18 @@ class Ctx:
     # -- oracle verdicts ------------------------------------------------------
     def violation(self, key, what, case):
         """The implementation breaks the property on a concrete input."""
-        if callable(case):
-            case = case()
         for (_, k, text) in self._known:
             if k == key:
                 if key not in [x['key'] for x in self.known]:
-                    self.known.append(dict(key=key, what=what, case=case))
+                    self.known.append(dict(key=key, what=what,
+                                           case=case() if callable(case) else case))
+                self.stats['known:' + key] = self.stats.get('known:' + key, 0) + 1
                 return
-        if len(self.violations) < 20:
+        if callable(case):
+            case = case()
+        n = sum(1 for v in self.violations if v['key'] == key)
+        self.stats['violations:' + key] = self.stats.get('violations:' + key, 0) + 1
+        if n < 2 and len(self.violations) < 30:
             self.violations.append(dict(key=key, what=what, case=case))
 
     def obligation_broken(self, name, detail):
